@@ -272,7 +272,7 @@ IMPLICIT = "no_unexpected_exception"
 class Runner:
     """Explores one query below a decision prefix."""
 
-    def __init__(self, query: Query, shim_ctl, seed=0, timeout_ms=10000, max_viol_per_clause=3):
+    def __init__(self, query: Query, shim_ctl, seed=0, timeout_ms=4000, max_viol_per_clause=3):
         self.q = query
         self.shim_ctl = shim_ctl      # object with .on() / .off()
         self.eng = Engine(seed=seed, timeout_ms=timeout_ms)
@@ -409,7 +409,7 @@ class Runner:
             eng.solver.add(z3.Not(z3.And(*[f.expr for _, f, _ in pend])))
             r = eng._check()
             if r == z3.sat:
-                m2 = eng.solver.model()
+                m2 = eng._model()
             eng.solver.pop()
             if r == z3.unknown:
                 raise Inconclusive("solver unknown (clause): " + ",".join(c for c, _, _ in pend))
